@@ -12,6 +12,7 @@ import (
 	"verif/harness/internal/core"
 	"verif/harness/internal/graph"
 	"verif/harness/internal/layers"
+	"verif/harness/internal/loader"
 	"verif/harness/internal/outputs"
 	"verif/harness/internal/sched"
 	"verif/harness/internal/taskrun"
@@ -28,6 +29,7 @@ var engines = map[string]engine{
 	"C11": outputs.Check,
 	"C12": cancel.Check,
 	"C14": contexts.Check,
+	"C15": loader.CheckC15, "C17": loader.CheckC17, "C18": loader.CheckC18,
 	"C13": timed.Check,
 }
 
